@@ -294,7 +294,7 @@ func confirms(kind, label, out string) bool {
 		return false
 	case "race":
 		return strings.Contains(out, "WARNING: DATA RACE")
-	case "deadlock":
+	case "deadlock", "wedge":
 		return strings.Contains(out, "test timed out") || strings.Contains(out, "KILLED-BY-WATCHDOG") || strings.Contains(out, "all goroutines are asleep") || strings.Contains(out, "VERIFND-DEADLOCK")
 	default: // run-time panics
 		return strings.Contains(out, "VERIFND-PANIC") || strings.Contains(out, "panic:") || strings.Contains(out, "fatal error:")
@@ -472,10 +472,10 @@ func cmdCheck(args []string) {
 		}
 		to := h.TimeoutMS
 		if to == 0 {
-			to = 10000
+			to = 30000
 		}
-		if tier == "thorough" {
-			to *= 6
+		if tier == "thorough" && to < 120000 {
+			to = 120000
 		}
 		pre := h.Preempt
 		if tier == "thorough" && h.PreemptT > 0 {
@@ -588,7 +588,7 @@ func cmdCheck(args []string) {
 			}
 			tag := fmt.Sprintf("%s_%d", h.Fn, i)
 			timeout := 60 * time.Second
-			if v.Kind == "deadlock" {
+			if v.Kind == "deadlock" || v.Kind == "wedge" {
 				timeout = 15 * time.Second
 			}
 			confirmed := false
